@@ -80,6 +80,8 @@ type PathResult struct {
 	Unknowns    int
 	Decisions   []Decision
 	SymBranches int
+	EnumQueries int
+	CacheHits   int
 	Observes    []string
 	Sample      map[string]string
 	Funcs       map[string]bool
@@ -103,6 +105,13 @@ type pathState struct {
 	res     *PathResult
 	known   []KnownRegion
 	nameCnt map[string]int
+	pcVars  [][]*Term
+	varMemo map[*Term][]*Term
+	parent  map[*Term]*Term
+	compSize map[*Term]int
+	noEnum  bool
+	qcache  map[qkey]qval
+	doms    map[*Term]*domain
 	effects []string
 	concrete map[string]uint64 // concrete replay mode: name -> value (nil when symbolic)
 	concreteMode bool
@@ -161,6 +170,224 @@ func (ps *pathState) evalModel(t *Term) (uint64, bool) {
 func (ps *pathState) addPC(c *Term) {
 	ps.pcs = append(ps.pcs, c)
 	ps.solver.Assert(c)
+	vs := ps.varsOf(c)
+	ps.pcVars = append(ps.pcVars, vs)
+	for k := 1; k < len(vs); k++ {
+		ps.union(vs[0], vs[k])
+	}
+}
+
+// ---- independence + small-domain enumeration (avoids solver calls) ----
+
+func (ps *pathState) varsOf(t *Term) []*Term {
+	if vs, ok := ps.varMemo[t]; ok {
+		return vs
+	}
+	var out []*Term
+	collectVars(t, map[*Term]bool{}, &out)
+	if ps.varMemo == nil {
+		ps.varMemo = map[*Term][]*Term{}
+	}
+	ps.varMemo[t] = out
+	return out
+}
+
+func (ps *pathState) find(v *Term) *Term {
+	if ps.parent == nil {
+		ps.parent = map[*Term]*Term{}
+	}
+	p, ok := ps.parent[v]
+	if !ok || p == v {
+		return v
+	}
+	r := ps.find(p)
+	ps.parent[v] = r
+	return r
+}
+
+func (ps *pathState) union(a, b *Term) {
+	ra, rb := ps.find(a), ps.find(b)
+	if ra != rb {
+		if ps.compSize == nil {
+			ps.compSize = map[*Term]int{}
+		}
+		na, nb := ps.compSize[ra], ps.compSize[rb]
+		if na == 0 {
+			na = 1
+		}
+		if nb == 0 {
+			nb = 1
+		}
+		ps.parent[ra] = rb
+		ps.compSize[rb] = na + nb
+	}
+}
+
+func (ps *pathState) compCount(v *Term) int {
+	r := ps.find(v)
+	if n := ps.compSize[r]; n > 0 {
+		return n
+	}
+	return 1
+}
+
+// domOf returns the values of the (<= 8 bit) variable v that satisfy every
+// path-condition conjunct mentioning only v (incrementally maintained).
+func (ps *pathState) domOf(v *Term) (*domain, bool) {
+	if ps.doms == nil {
+		ps.doms = map[*Term]*domain{}
+	}
+	d := ps.doms[v]
+	if d == nil {
+		n := uint64(1) << uint(v.sort.w)
+		if v.sort.k == sBool {
+			n = 2
+		}
+		d = &domain{}
+		for x := uint64(0); x < n; x++ {
+			d.vals = append(d.vals, x)
+		}
+		ps.doms[v] = d
+	}
+	m := map[string]uint64{}
+	for ; d.npc < len(ps.pcs); d.npc++ {
+		pvs := ps.pcVars[d.npc]
+		if len(pvs) != 1 || pvs[0] != v {
+			continue
+		}
+		c := ps.pcs[d.npc]
+		keep := d.vals[:0]
+		for _, x := range d.vals {
+			m[v.name] = x
+			r, ok := evalTerm(c, m, map[*Term]uint64{})
+			if !ok {
+				return nil, false
+			}
+			if r == 1 {
+				keep = append(keep, x)
+			}
+		}
+		d.vals = keep
+	}
+	return d, true
+}
+
+type domain struct {
+	vals []uint64
+	npc  int
+}
+
+// checkSat decides sat(pc ∧ extra) and returns a model of it.  When extra
+// (with the constraints it depends on) involves a single variable of at most
+// 8 bits, the answer is computed by enumeration instead of a solver call.
+func (ps *pathState) checkSat(extra *Term) (string, map[string]uint64) {
+	if ps.model != nil && !ps.noEnum {
+		vs := ps.varsOf(extra)
+		if len(vs) == 1 && vs[0].sort.k != sFP && vs[0].sort.w <= 8 {
+			v := vs[0]
+			if ps.compCount(v) == 1 {
+				d, ok := ps.domOf(v)
+				if !ok {
+					goto solver
+				}
+				ps.res.EnumQueries++
+				m := map[string]uint64{}
+				for _, val := range d.vals {
+					m[v.name] = val
+					r, ok := evalTerm(extra, m, map[*Term]uint64{})
+					if !ok {
+						goto solver
+					}
+					if r == 1 {
+						nm := make(map[string]uint64, len(ps.model)+1)
+						for k2, v2 := range ps.model {
+							nm[k2] = v2
+						}
+						nm[v.name] = val
+						return "sat", nm
+					}
+				}
+				return "unsat", nil
+			}
+		}
+	}
+solver:
+	return ps.cachedCheck(extra)
+}
+
+type qkey struct{ a, b uint64 }
+
+type qval struct {
+	sat  bool
+	vals map[string]uint64
+}
+
+// cachedCheck: independence slicing + per-worker query cache.  The verdict
+// of sat(pc ∧ extra) depends only on the conjuncts sharing variables
+// (transitively) with extra; that slice is hashed structurally and looked up.
+func (ps *pathState) cachedCheck(extra *Term) (string, map[string]uint64) {
+	cache := ps.qcache
+	if cache == nil || ps.model == nil {
+		return ps.solver.CheckWith(true, nil, extra)
+	}
+	vs := ps.varsOf(extra)
+	if len(vs) == 0 {
+		return ps.solver.CheckWith(true, nil, extra)
+	}
+	roots := map[*Term]bool{}
+	for _, v := range vs {
+		roots[ps.find(v)] = true
+	}
+	var ka, kb uint64
+	n := 0
+	for k, pvs := range ps.pcVars {
+		if len(pvs) == 0 || !roots[ps.find(pvs[0])] {
+			continue
+		}
+		h1, h2 := ps.pcs[k].hash()
+		// order-independent combination
+		ka += h1 * 0x9E3779B97F4A7C15
+		kb ^= h2*0xC2B2AE3D27D4EB4F + h1
+		n++
+	}
+	e1, e2 := extra.hash()
+	key := qkey{ka ^ (e1 * 31) ^ uint64(n)<<56, kb + e2*17}
+	if qv, ok := cache[key]; ok {
+		ps.res.CacheHits++
+		if !qv.sat {
+			return "unsat", nil
+		}
+		nm := make(map[string]uint64, len(ps.model)+len(qv.vals))
+		for k2, v2 := range ps.model {
+			nm[k2] = v2
+		}
+		for k2, v2 := range qv.vals {
+			nm[k2] = v2
+		}
+		return "sat", nm
+	}
+	res, m := ps.solver.CheckWith(true, nil, extra)
+	switch res {
+	case "unsat":
+		cache[key] = qval{sat: false}
+	case "sat":
+		vals := map[string]uint64{}
+		// values of the variables of the slice
+		for k, pvs := range ps.pcVars {
+			_ = k
+			if len(pvs) == 0 || !roots[ps.find(pvs[0])] {
+				continue
+			}
+			for _, pv := range pvs {
+				vals[pv.name] = m[pv.name]
+			}
+		}
+		for _, v := range vs {
+			vals[v.name] = m[v.name]
+		}
+		cache[key] = qval{sat: true, vals: vals}
+	}
+	return res, m
 }
 
 // branch decides a symbolic condition, forking the path when both sides
@@ -183,25 +410,19 @@ func (ps *pathState) branch(cond *Term, site token.Pos) bool {
 		return d.Val == 1
 	}
 	ps.res.SymBranches++
-	if site != token.NoPos {
-		ps.siteCnt[site]++
-		if ps.siteCnt[site] > ps.unwind {
-			ps.abort(abUnwound, fmt.Sprintf("symbolic branch site taken more than %d times", ps.unwind))
-		}
-	}
 	var feasT, feasF string
 	var mT, mF map[string]uint64
 	if mv, ok := ps.evalModel(cond); ok {
 		if mv == 1 {
 			feasT, mT = "sat", ps.model
-			feasF, mF = ps.solver.CheckWith(true, nil, tNot(cond))
+			feasF, mF = ps.checkSat(tNot(cond))
 		} else {
 			feasF, mF = "sat", ps.model
-			feasT, mT = ps.solver.CheckWith(true, nil, cond)
+			feasT, mT = ps.checkSat(cond)
 		}
 	} else {
-		feasT, mT = ps.solver.CheckWith(true, nil, cond)
-		feasF, mF = ps.solver.CheckWith(true, nil, tNot(cond))
+		feasT, mT = ps.checkSat(cond)
+		feasF, mF = ps.checkSat(tNot(cond))
 	}
 	if feasT != "sat" && feasT != "unsat" {
 		ps.res.Unknowns++
@@ -213,6 +434,13 @@ func (ps *pathState) branch(cond *Term, site token.Pos) bool {
 	}
 	switch {
 	case feasT == "sat" && feasF == "sat":
+		// the unwinding bound counts genuine (two-sided) forks per site
+		if site != token.NoPos {
+			ps.siteCnt[site]++
+			if ps.siteCnt[site] > ps.unwind {
+				ps.abort(abUnwound, fmt.Sprintf("symbolic branch site %d taken more than %d times", int(site), ps.unwind))
+			}
+		}
 		alt := append(append([]Decision{}, ps.log...), Decision{Val: 0, N: 2})
 		ps.res.Forks = append(ps.res.Forks, WorkItem{alt, mF})
 		ps.log = append(ps.log, Decision{Val: 1, N: 2})
@@ -251,7 +479,7 @@ func (ps *pathState) choice(name string, n int) int {
 		return 0
 	}
 	if ps.concreteMode {
-		v := int(ps.concrete[name])
+		v := int(ps.concrete["choice:"+name])
 		ps.choices[name] = v
 		return v
 	}
@@ -282,7 +510,7 @@ func (ps *pathState) assume(c value) {
 			ps.addPC(c)
 			return
 		}
-		r, m := ps.solver.CheckWith(true, nil, c)
+		r, m := ps.checkSat(c)
 		switch r {
 		case "sat":
 			ps.addPC(c)
@@ -387,7 +615,7 @@ func (ps *pathState) assert(c value, label string, pos string) {
 			res, m = ps.solver.CheckWith(true, nil)
 		}
 	} else {
-		res, m = ps.solver.CheckWith(true, nil, neg)
+		res, m = ps.checkSat(neg)
 	}
 	switch res {
 	case "unsat":
@@ -433,7 +661,7 @@ cont:
 		ps.addPC(cond)
 		return
 	}
-	r, m3 := ps.solver.CheckWith(true, nil, cond)
+	r, m3 := ps.checkSat(cond)
 	if r == "sat" {
 		ps.addPC(cond)
 		ps.model = m3
@@ -510,7 +738,7 @@ func (ps *pathState) concretize(t *Term) uint64 {
 			v, _ = ps.evalModel(t)
 		}
 		c := tEq(t, mkc(v))
-		r, m2 := ps.solver.CheckWith(true, nil, tNot(c))
+		r, m2 := ps.checkSat(tNot(c))
 		switch r {
 		case "sat":
 			alt := append(append([]Decision{}, ps.log...), Decision{Val: int(v), N: -2})
